@@ -11,7 +11,6 @@ import (
 	"errors"
 	"flag"
 	"fmt"
-	"os"
 	"sort"
 	"strings"
 	"sync"
@@ -377,7 +376,7 @@ func TestCheck(t *testing.T) {
 		fmt.Println(strings.Join(tp.Labels(), " "))
 		fmt.Printf("outcome: %+v\n", out)
 		if out.Violation != "" {
-			exit = 1
+			report.ExitCode = 1
 		}
 		return
 	}
@@ -389,16 +388,7 @@ func TestCheck(t *testing.T) {
 	}
 	r := explore.Explore(explore.Config{Bound: -1, Workers: 16}, b)
 	c.AddExplore(fmt.Sprintf("points-writer owners<=%d", maxOwners), r, map[string]any{"max_owners": maxOwners})
-	exit = c.Finish()
+	report.ExitCode = c.Finish()
 }
 
-var exit int
-
-func TestMain(m *testing.M) {
-	flag.Parse()
-	code := m.Run()
-	if exit != 0 {
-		code = exit
-	}
-	os.Exit(code)
-}
+func TestMain(m *testing.M) { flag.Parse(); report.Main(m.Run) }
